@@ -612,15 +612,18 @@ func (p *pair) classify(phase string, out *outcome, ldump *t38.Dump, lst, st srv
 		}
 	}
 	key := "mismatch:" + kind
+	streamPos, streamDelivered, streamOK := p.px.LastStream()
 	switch {
-	case (lastPos == 0 || lastPos2 == 0) && fst.aofSize != lst.aofSize:
-		// resumed at 0 although it held data: its log counter (old + leader's) gives it away
+	case streamOK && streamPos == 0 && fst.aofSize > streamDelivered:
+		// resumed at 0 although it held data: its log counter exceeds everything the
+		// current stream (which started at 0) has delivered, so part of it is older
 		key = findingKeepsOldData
-	case lastPos > 0 && lastPos2 > 0 && fst.aofSize > lst.aofSize &&
-		!strings.Contains(p.F.Stderr.String(), fmt.Sprintf("truncating aof to %d", lastPos2)):
-		// resumed inside the log without truncating its own log to that position
-		// (no "truncating aof to <pos>" line), and its log counter ran past the
-		// leader's: it kept, re-applied and re-appended the part behind the verified prefix
+	case lastPos2 == window && fst.aofSize > lst.aofSize:
+		// Resumed exactly at the end of the first checksum window -- the verified
+		// prefix of any follower log between 512 KiB and 1 MiB. The truncating path
+		// resumes at the end of the command that straddles that offset; landing on
+		// the offset itself means a command ends there and nothing was truncated.
+		// The log counter past the leader's confirms that the tail was kept.
 		key = findingKeepsTail
 	case streams >= 2:
 		// a new replication stream was opened while an older one was still open:
@@ -864,6 +867,8 @@ func runCase(cs *caseSpec, ro runOpts) (out *outcome) {
 				return
 			}
 			steady = true
+		case stSleep:
+			time.Sleep(time.Duration(st.Ms) * time.Millisecond)
 		case stAwait:
 			if reconnAfter >= 0 {
 				dl := time.Now().Add(ro.budget)
@@ -878,7 +883,7 @@ func runCase(cs *caseSpec, ro runOpts) (out *outcome) {
 		if st.Kind == stPubStorm {
 			out.label("leader:pubstorm")
 		}
-		if st.Kind != stBurst && st.Kind != stSlow && st.Kind != stPubStorm && st.Kind != stAwait {
+		if st.Kind != stBurst && st.Kind != stSlow && st.Kind != stPubStorm && st.Kind != stAwait && st.Kind != stSleep {
 			faultSeen = true
 			out.label("fault:" + st.Kind)
 		}
